@@ -646,10 +646,58 @@ impl Default for Qualifiers {
          contract="""        ensures r.0 == self.rem().len(), r.1 == Some(r.0)"""),
 ]
 
+# construction from pairs: the loop is purl's, the iterator is the caller's (R5: `for` written out as into_iter / next)
+TFI_UNITS = [
+    dict(id='theory.tfi', kind='raw', text=_c.theory_text('tfi.rs')),
+    dict(id='U-qmap.try_from_iter', file=F, fn='try_from_iter', ctx=_Q, wrap='impl Qualifiers', properties=['C11', 'C05', 'C06'],
+         contract="""        ensures match r {
+            // accepted: exactly the given pairs, each under its lower-cased key, strictly ascending; the keys were all valid and pairwise different in any letter case
+            Ok(q) => q.wf() && tfi_inv(yielded(items), yielded(items).len() as int, q.qualifiers@) && tfi_distinct(yielded(items), yielded(items).len() as int),
+            // refused: some key is not a valid key, or two keys are the same up to ASCII case
+            Err(e) => e is InvalidQualifier && ((exists|i: int| 0 <= i < yielded(items).len() && !valid_key(#[trigger] yielded(items)[i].0.text()))
+                || (exists|i: int, j: int| 0 <= i < j < yielded(items).len() && #[trigger] item_key(yielded(items), i) == #[trigger] item_key(yielded(items), j))),
+        }""",
+         begin='        let ghost all = yielded(items);\n        let ghost mut gi: int = 0;',
+         # the shadowing `let items = items.into_iter()` gets its own name so that the contract can still name the argument
+         rw=[('R5', r'let items = items\.into_iter\(\);', 'let items_ = x_into_iter(items);', 1),
+             ('R5', r'items\.size_hint\(\)\.0', 'x_size_hint_lower(&items_)', 1),
+             ('R5', '@for_next', r'for \(key, value\) in items'),
+             ('R5', r'let mut iter_ = \(items\)\.into_iter\(\);', 'let mut iter_ = items_;', 1),
+             # R8: `e?` on the same error type, written out (the early return carries the postcondition)
+             ('R8', r'match this\.entry\(key\)\? \{', 'match (match this.entry(key) { Ok(v_) => v_, Err(e_) => { proof { assert(!valid_key(all[gi].0.text())); } return Err(e_) } }) {', 1),
+             ],
+         loops={0: """
+            invariant
+                0 <= gi <= all.len(), all == yielded(items),
+                vstd::std_specs::iter::IteratorSpec::obeys_prophetic_iter_laws(&iter_),
+                vstd::std_specs::iter::IteratorSpec::decrease(&iter_) is Some,
+                vstd::std_specs::iter::IteratorSpec::remaining(&iter_) == all.skip(gi),
+                this.wf(), tfi_inv(all, gi, this.qualifiers@), tfi_distinct(all, gi),
+            ensures gi == all.len(),
+            decreases vstd::std_specs::iter::IteratorSpec::decrease(&iter_)->Some_0,
+"""},
+         hints=[(r'let mut iter_ = items_;', 'before', '        proof { assert(all.skip(0) =~= all); }'),
+                (r'match \(match this\.entry\(key\)', 'before', '            let ghost qv = this.qualifiers@;'),
+                (r'Entry::Occupied\(_\) => ', 'after', """{ proof {
+                        let p = pos_of(qv, item_key(all, gi));
+                        let i = choose|i: int| 0 <= i < gi && qv[p].0.0@ == #[trigger] item_key(all, i);
+                        assert(item_key(all, i) == item_key(all, gi));
+                    } """),
+                (r'return Err\(ParseError::InvalidQualifier\)', 'after', ' }'),
+                (r'entry\.insert\(value\);', 'before', """                        let ghost ix = entry.index as int;"""),
+                (r'entry\.insert\(value\);', 'after', """                        proof {
+                            lemma_tfi_step(all, gi, qv, ix, this.qualifiers@[ix]);
+                            assert(all.skip(gi).skip(1) =~= all.skip(gi + 1));
+                            gi = gi + 1;
+                        }"""),
+                (r'Ok\(this\)\s*\}\s*$', 'before', '        proof { assert(gi == all.len()); }'),
+                ]),
+]
+
 GROUP = dict(
     name='qual',
     theory=['base.rs'],
     uses='use core::cmp::Ordering;\nuse core::marker::PhantomData;\nuse core::mem;\nuse core::slice;',
     canary='    axiom_string_from(); broadcast use axiom_ascii_to_lower; broadcast use axiom_view_of_str; axiom_from_keeps_text::<&str>();',
-    units=[_c.PURL_FIELD, _c.PARSE_ERROR, _c.QUALIFIER_KEY, _c.QUALIFIERS] + KEY_UNITS + CMP_UNITS + MAP_UNITS + MAP_UNITS2 + MAP_UNITS3 + MAP_UNITS4 + TYPED_UNITS + ITER_UNITS + MORE_UNITS + CAP_UNITS,
+    units=[_c.PURL_FIELD, _c.PARSE_ERROR, _c.QUALIFIER_KEY, _c.QUALIFIERS] + KEY_UNITS + CMP_UNITS + MAP_UNITS + MAP_UNITS2 + MAP_UNITS3 + MAP_UNITS4 + TYPED_UNITS + ITER_UNITS + MORE_UNITS + CAP_UNITS + TFI_UNITS,
 )
